@@ -29,6 +29,7 @@ import weakref
 
 from ..core import (Violation, HarnessError, StepCap, stream, sut, exc_name, mix, exc_class,
                     InjectedFault)
+from ..core import deep
 
 ID = "C18"
 PHASE = os.environ.get("C18_PHASE", "san")
@@ -148,7 +149,7 @@ class Prop:
 
     def gen_adv(self, seed):
         r = stream(seed, "adv")
-        nops = r.choice([5, 10, 20, 35])
+        nops = deep(r, [5, 10, 20, 35], [60])
         storm = r.random() < 0.25
         ops = []
         for _ in range(nops):
